@@ -54,6 +54,7 @@ PROPS = {
             "BPT.Props.C16.counters_exact",
             "BPT.Props.C16.clear_invalidates_all",
             "BPT.Props.C16.compact_keeps_live",
+            "BPT.Props.C16.compact_handles_dense",
             "BPT.Props.C16.allocate_reuses",
             "BPT.Props.C16.allocate_full_refused",
             "BPT.Props.C16.Legacy.allocate_returns_null",
